@@ -145,7 +145,9 @@ impl Validator {
                 }
             }
             if self.has_constraint_reference(&key) {
-                match self.tlds.remove(&key).ok_or_else(|| LinkerError {
+                // the definition stays visible while it is linked: a constraint may refer to the
+                // named numbers of the type it constrains
+                match self.tlds.get(&key).cloned().ok_or_else(|| LinkerError {
                     pdu: Some(key.clone()),
                     details: "Could not find toplevel declaration to remove!".into(),
                     kind: LinkerErrorType::MissingDependency,
